@@ -216,7 +216,7 @@ class C07(Check):
     level = "exploration"
     title = "Output and local-namespace limits bound what they measure"
     rule = (
-        "Every template with <= 3 constructs over {1/2/3/4-byte text, output, assign, cycle, include, include-for, "
+        "Every template with <= 3 constructs over {1/2/3/4-byte text, \\r / \\r\\n / \\n\\r text, output, assign, cycle, include, include-for, "
         "render, render-for (partials capture, assign, use ifchanged and render a second partial), for, capture, "
         "ifchanged} x every data set is rendered unlimited (U bytes, namespace totals after each assign, peak S), "
         "then under every output_stream_limit in [0,2U] (all integers <= 64, then U-2..U+2, 2U) and every "
@@ -240,7 +240,7 @@ class C07(Check):
     def bounds(self, tier: str) -> dict[str, Any]:
         return {
             "templates": len(G.corpus(tier)),
-            "constructs_per_template": "<= 2 over the full menu (13 leaves, 4 blocks) and <= 3 over the reduced menu "
+            "constructs_per_template": "<= 2 over the full menu (16 leaves, 4 blocks) and <= 3 over the reduced menu "
                                        "(6 leaves, 4 blocks)" if tier == "quick" else "<= 3 over the full menu",
             "data_sets": [k for k, _ in G.data_sets(tier)],
             "output_stream_limit": "every integer in [0, min(2U,64)] plus U-2..U+2 and 2U",
